@@ -916,7 +916,14 @@ class API:
             gapic.schema.api.ClientLibrarySettingsError: Raised when `google.api.client_pb2.ClientLibrarySettings`
             contains an invalid value.
         """
-        self.enforce_valid_library_settings(
+        # The service YAML names methods of the whole API: validate against the
+        # whole API, not against the sub-package this view shows.
+        whole_api = (
+            dataclasses.replace(self, subpackage_view=())
+            if self.subpackage_view
+            else self
+        )
+        whole_api.enforce_valid_library_settings(
             self.service_yaml_config.publishing.library_settings
         )
 
